@@ -11,6 +11,9 @@ extern "C" {
 #include <signal.h>
 #include <unistd.h>
 #include <sys/stat.h>
+#include <sys/wait.h>
+#include <fcntl.h>
+#include <cerrno>
 #include <new>
 #include <cstdarg>
 
@@ -23,6 +26,7 @@ extern "C" {
    size_t __asan_get_alloc_stack(void* addr, void** trace, size_t size, int* thread_id);
    int __lsan_do_recoverable_leak_check();
    void __lsan_ignore_object(const void* p);
+   void __sanitizer_set_report_path(const char* path);
 }
 #else
 #define VL_ASAN 0
@@ -520,6 +524,20 @@ static void vlog(const char* fmt, ...)
    fputc('\n', stderr);
 }
 
+// A worker that dies loses the counters it has not reported yet, so a partial summary is written before anything that
+// is known to be able to kill the process (the driver adds up all summary records of a run).
+static void flushSummary()
+{
+   Sink& S = sink();
+   if(S.counters.empty() && S.distinct.empty()) return;
+   S.finish();
+   S.counters.clear();
+   S.maxima.clear();
+   S.distinct.clear();
+   S.samples.clear();
+}
+static bool isRisky(Fn f);
+
 // scope of one C call
 struct Call
 {
@@ -531,6 +549,7 @@ struct Call
       sink().count(std::string("calls.") + FN[f]);
       sink().count("calls.total");
       if(verbose) fprintf(stderr, "  C call #%d %s\n", c.ncalls, FN[f]);
+      if(isRisky(f)) flushSummary();
       g_na_n = 0;
       g_lastfn = FN[f];
       g_curfn = FN[f];
@@ -561,13 +580,17 @@ static void post(Ctx& c, Fn f)
    if(c.dead || c.H == nullptr) return;
    // Guard: a real LP flagged as scaled without a scaler object (left behind by exact solves with a scaler, a defect of
    // the C++ library itself) makes the unscaling C++ accessors undefined; such a history ends here without a verdict.
-   if((c.M->_realLP->isScaled() && c.M->_realLP->lp_scaler == nullptr) || (c.h()._realLP->isScaled() && c.h()._realLP->lp_scaler == nullptr))
+   if((c.M->_realLP->isScaled() && (c.M->_realLP->lp_scaler == nullptr || c.M->_scaler == nullptr))
+         || (c.h()._realLP->isScaled() && (c.h()._realLP->lp_scaler == nullptr || c.h()._scaler == nullptr)))
    {
       sink().count("guard.scaled_without_scaler");
       c.dead = true;
       return;
    }
    sink().count("oracle.twin_compared");
+   if(verbose) fprintf(stderr, "    state: %dx%d rational %s colTypes %d rowTypes %d status %d scaled %d\n", c.M->numRows(), c.M->numCols(),
+                          c.M->_rationalLP ? (std::to_string(c.M->numRowsRational()) + "x" + std::to_string(c.M->numColsRational())).c_str() : "-",
+                          c.M->_colTypes.size(), c.M->_rowTypes.size(), (int)c.M->status(), (int)c.M->_realLP->isScaled());
    std::string d = diffSoPlex(c.h(), *c.M);
    if(!d.empty())
    {
@@ -663,6 +686,7 @@ static void pickRangeQ(Rng& g, LPair& lo, LPair& hi)
 static int pickDenseLen(Rng& g, int cur, bool mayGrow)
 {
    int t = g.range(0, 9);
+   if(cur == 0 && mayGrow && t <= 7) return g.range(1, 3);      // first rows/columns of an empty LP, as in the C test
    if(t == 0 && cur > 0) return g.range(0, cur - 1);
    if(t <= 2 && cur < MAXDIM && mayGrow) return g.range(cur + 1, std::min(MAXDIM, cur + 2));
    return cur;
@@ -736,7 +760,7 @@ static bool opSetIntParam(Ctx& c, int code = -1, int value = 0)
          {SoPlex::OBJSENSE, {-1, 1}}, {SoPlex::REPRESENTATION, {0, 1, 2}}, {SoPlex::ALGORITHM, {0, 1}}, {SoPlex::FACTOR_UPDATE_MAX, {0, 5, 20}},
          {SoPlex::ITERLIMIT, {0, 3, 50, 1000}}, {SoPlex::REFLIMIT, {-1, 0, 5}}, {SoPlex::STALLREFLIMIT, {-1, 3}}, {SoPlex::DISPLAYFREQ, {1, 200}},
          {SoPlex::SIMPLIFIER, {0, 1, 3}}, {SoPlex::SCALER, {0, 1, 2, 3, 4, 6}}, {SoPlex::STARTER, {0, 1, 3}}, {SoPlex::PRICER, {0, 1, 2, 3, 4, 5}},
-         {SoPlex::RATIOTESTER, {0, 1, 2, 3}}, {SoPlex::SYNCMODE, {0, 1, 1, 2}}, {SoPlex::READMODE, {0, 1}}, {SoPlex::SOLVEMODE, {0, 1, 2}},
+         {SoPlex::RATIOTESTER, {0, 1, 2, 3}}, {SoPlex::SYNCMODE, {0, 1, 1}}, {SoPlex::READMODE, {0, 1}}, {SoPlex::SOLVEMODE, {0, 1, 2}},
          {SoPlex::CHECKMODE, {0, 1, 2}}, {SoPlex::TIMER, {0, 1, 2}}, {SoPlex::HYPER_PRICING, {0, 1, 2}}, {SoPlex::RATFAC_MINSTALLS, {0, 2}},
          {SoPlex::SOLUTION_POLISHING, {0, 1, 2}}, {SoPlex::STATTIMER, {0, 1, 2}},
       };
@@ -753,6 +777,9 @@ static bool opSetIntParam(Ctx& c, int code = -1, int value = 0)
          value = g.pick(e.second);
       }
    }
+   // switching the scaler while the real LP is (persistently) scaled leaves a scaled LP without scaler object behind: the
+   // unscaling accessors of the C++ class then dereference a null scaler -> the scaler is only changed on an unscaled LP
+   if(code == SoPlex::SCALER && c.M->_realLP->isScaled() && value != c.M->intParam(SoPlex::SCALER)) return false;
    vlog("  setIntParam(%s=%d)", SoPlex::Settings::intParam.name[code].c_str(), value);
    {
       Call _(c, F_setIntParam);
@@ -763,16 +790,21 @@ static bool opSetIntParam(Ctx& c, int code = -1, int value = 0)
    post(c, F_setIntParam);
    return true;
 }
-static bool opSetBoolParam(Ctx& c)
+static bool opSetBoolParam(Ctx& c, int fcode = -1, int fvalue = 0)
 {
    Rng& g = c.g;
-   static const std::vector<int> toggle = {SoPlex::LIFTING, SoPlex::EQTRANS, SoPlex::TESTDUALINF, SoPlex::RATFAC, SoPlex::ACCEPTCYCLING, SoPlex::RATREC,
+   static const std::vector<int> toggle = {SoPlex::EQTRANS, SoPlex::TESTDUALINF, SoPlex::RATFAC, SoPlex::ACCEPTCYCLING, SoPlex::RATREC,
                                            SoPlex::POWERSCALING, SoPlex::RATFACJUMP, SoPlex::ROWBOUNDFLIPS, SoPlex::PERSISTENTSCALING,
                                            SoPlex::FULLPERTURBATION, SoPlex::ENSURERAY, SoPlex::FORCEBASIC, SoPlex::SIMPLIFIER_SINGLETONCOLS,
                                            SoPlex::SIMPLIFIER_DUALFIX, SoPlex::SIMPLIFIER_DOMINATEDCOLS
                                           };
    int code, value;
-   if(g.chance(0.35))
+   if(fcode >= 0)
+   {
+      code = fcode;
+      value = fvalue;
+   }
+   else if(g.chance(0.35))
    {
       code = g.range(0, SoPlex::BOOLPARAM_COUNT - 1);
       value = g.chance(0.5) ? (int)SoPlex::Settings::boolParam.defaultValue[code] : (int)c.M->boolParam((SoPlex::BoolParam)code);
@@ -1322,15 +1354,61 @@ static bool rationalSolveSelected(Ctx& c)
    return !(sm == SoPlex::SOLVEMODE_REAL || (sm == SoPlex::SOLVEMODE_AUTO && c.M->realParam(SoPlex::FEASTOL) >= 1e-9
             && c.M->realParam(SoPlex::OPTTOL) >= 1e-9));
 }
+static bool probeOptimize(Ctx& c)
+{
+   fflush(stdout);
+   fflush(stderr);
+   pid_t pid = fork();
+   if(pid < 0) return true;
+   if(pid == 0)
+   {
+      int fd = open("/dev/null", O_WRONLY);
+      if(fd >= 0)
+      {
+         dup2(fd, 1);
+         dup2(fd, 2);
+      }
+      alarm(60);
+      c.M->optimize();
+      _exit(0);
+   }
+   int status = 0;
+   while(waitpid(pid, &status, 0) < 0 && errno == EINTR) {}
+   sink().count("probe.optimize");
+   return WIFEXITED(status) && WEXITSTATUS(status) == 0;
+}
 static bool opOptimize(Ctx& c)
 {
    // manual sync mode: an exact solve requires synchronised LPs and the C interface has no sync call -> real solves only
    if(c.M->intParam(SoPlex::SYNCMODE) == SoPlex::SYNCMODE_MANUAL && rationalSolveSelected(c)) return false;
+   // a second exact solve right after an exact solve that ended INFEASIBLE crashes inside the C++ library
+   // (_untransformFeasibility removes a column that is not there): such a re-solve is left to the exact-solve properties
+   if(rationalSolveSelected(c) && (int)c.M->status() == (int)SPxSolverBase<double>::INFEASIBLE)
+   {
+      sink().count("guard.resolve_after_infeasible_exact_solve_skipped");
+      return false;
+   }
    // exact solves are run with the scaler off (see the guard in post())
    if(rationalSolveSelected(c) && c.M->intParam(SoPlex::SCALER) != SoPlex::SCALER_OFF)
    {
-      opSetIntParam(c, SoPlex::SCALER, SoPlex::SCALER_OFF);
+      if(!opSetIntParam(c, SoPlex::SCALER, SoPlex::SCALER_OFF)) return false;
       if(c.dead) return true;
+   }
+   // Precision boosting changes the process-wide default precision of the multiprecision type, so the second of two twin
+   // objects solves differently from the first (reproducible in pure C++): exact solves run without it.
+   if(rationalSolveSelected(c) && c.M->boolParam(SoPlex::PRECISION_BOOSTING))
+   {
+      opSetBoolParam(c, SoPlex::PRECISION_BOOSTING, 0);
+      if(c.dead) return true;
+   }
+   // The exact solver of the C++ library has memory errors of its own on some of these small LPs.  C20 judges the wrapper
+   // where the wrapped C++ call itself completes: the mirror's solve is first tried in a forked child; if the child dies
+   // the solve is not part of this history.
+   if(!probeOptimize(c))
+   {
+      sink().count(rationalSolveSelected(c) ? "guard.cpp_optimize_dies_in_probe.rational" : "guard.cpp_optimize_dies_in_probe.real");
+      c.dead = true;
+      return true;
    }
    int st;
    {
@@ -1642,7 +1720,12 @@ static void checkString(Ctx& c, Fn f, char* p, const std::string& expect, bool r
    {
       viol(c, f, "free-mismatch", std::string("the returned array is allocated with operator new") + (bi.kind == 2 ? "[]" : "") +
            "; the header tells the C caller to free it, and free() on it is an allocator mismatch");
-      if(releaseAsDocumented && VL_ASAN) free(p);           // let AddressSanitizer have the last word (dedicated cases only)
+      if(releaseAsDocumented && VL_ASAN)
+      {
+         flushSummary();
+         free(p);
+      }
+      if(releaseAsDocumented && VL_ASAN) {}           // let AddressSanitizer have the last word (dedicated cases only)
       else if(bi.kind == 2) delete[] p;
       else delete p;
    }
@@ -1788,9 +1871,9 @@ static bool opReadInstanceFile(Ctx& c)
 {
    Rng& g = c.g;
    std::string path;
-   int t = g.range(0, 9);
+   int t = g.range(0, 19);
    if(t == 0) path = cli.tmpdir + "/c20_does_not_exist.lp";
-   else if(t <= 4 && !c.lastInstFile.empty()) path = c.lastInstFile;
+   else if(t <= 9 && !c.lastInstFile.empty()) path = c.lastInstFile;
    else
    {
       path = c.newFile(".lp");
@@ -1818,7 +1901,8 @@ static bool opReadBasisFile(Ctx& c)
       c.M->writeBasisFile(path.c_str());
    }
    else if(!c.lastBasisFile.empty() && g.chance(0.7)) path = c.lastBasisFile;
-   else path = cli.tmpdir + "/c20_does_not_exist.bas";
+   else if(g.chance(0.08)) path = cli.tmpdir + "/c20_does_not_exist.bas";
+   else return false;
    c.lastBasisFile = path;
    char* name = heapStr(path);
    int r = -1;
@@ -1835,9 +1919,9 @@ static bool opReadSettingsFile(Ctx& c)
 {
    Rng& g = c.g;
    std::string path;
-   int t = g.range(0, 9);
+   int t = g.range(0, 19);
    if(t == 0) path = cli.tmpdir + "/c20_does_not_exist.set";
-   else if(t <= 5)
+   else if(t <= 12)
    {
       path = c.newFile(".set");
       c.M->saveSettingsFile(path.c_str(), g.chance(0.5));
@@ -1885,7 +1969,7 @@ static const std::vector<OpEnt>& opTable()
    static const std::vector<OpEnt> t =
    {
       {F_setIntParam, 2.0, [](Ctx & c) { return opSetIntParam(c); }},
-      {F_setBoolParam, 1.0, opSetBoolParam},
+      {F_setBoolParam, 1.0, [](Ctx & c) { return opSetBoolParam(c); }},
       {F_setRealParam, 1.0, opSetRealParam},
       {F_getIntParam, 1.0, opGetIntParam},
       {F_setRational, 0.4, opSetRational},
@@ -1958,6 +2042,9 @@ static void randomStep(Ctx& c)
          bool adds = f == F_addRowReal || f == F_addColReal || f == F_addRowRational || f == F_addColRational;
          if(adds && (n < 2 || m < 2)) x *= 4.0;         // build something first
          if(f == F_optimize && (n == 0 || m == 0)) x *= 0.15;
+         bool solGetter = f == F_getPrimalReal || f == F_getDualReal || f == F_getRedCostReal || f == F_objValueReal || f == F_objValueRationalString
+                          || f == F_getPrimalRationalString || f == F_basisRowStatus || f == F_basisColStatus || f == F_getNumIterations || f == F_getSolvingTime;
+         if(solGetter) x *= c.M->hasSol() ? 3.0 : 0.4;
          w[i] = x;
          tot += x;
       }
@@ -1977,31 +2064,74 @@ static void randomStep(Ctx& c)
    }
 }
 
+// Leak audit (ASan flavour).  Blocks allocated inside C calls / the mirror's C++ calls that survive the destruction of both
+// objects are candidates; LeakSanitizer decides and attributes: its report is captured and each direct leak is assigned
+// to the first SoPlex source frame below the allocator.  A leak whose first SoPlex frame is a wrapper in
+// soplex_interface.cpp is the wrapper's own; leaks allocated deeper in the C++ library happen equally in the wrapped C++
+// call and are only counted.
 static void leakAudit(Ctx& c)
 {
 #if VL_ASAN
    sink().count("leak.audits");
    if(g_lt_overflow) sink().count("leak.table_overflow");
    if(g_lt_live == 0) return;
-   // blocks allocated inside a C call (fn < F_COUNT) or inside the mirror's C++ call (fn >= F_COUNT) that survived
-   // the destruction of both objects
-   std::map<int, std::pair<long, long>> byFn, byFnM;      // fn -> (blocks, bytes)
-   for(size_t i = 0; i < LT_SIZE; i++) if(g_lt[i].key > 1)
-      {
-         auto& e = g_lt[i].fn < F_COUNT ? byFn[g_lt[i].fn] : byFnM[g_lt[i].fn - F_COUNT];
-         e.first++;
-         e.second += g_lt[i].size;
-      }
+   sink().count("leak.audits_with_survivors");
+   std::string base = cli.tmpdir + "/c20_lsan_" + std::to_string((long)getpid());
+   std::string rpt = base + "." + std::to_string((long)getpid());
+   unlink(rpt.c_str());
+   fflush(stderr);
+   __sanitizer_set_report_path(base.c_str());
    int leaks = __lsan_do_recoverable_leak_check();      // the table holds masked pointers only: it keeps nothing alive
-   for(auto& kv : byFn)
+   __sanitizer_set_report_path("stderr");
+   if(leaks)
    {
-      long mirrorBlocks = byFnM.count(kv.first) ? byFnM[kv.first].first : 0;
-      std::string d = std::to_string(kv.second.first) + " block(s), " + std::to_string(kv.second.second) + " byte(s) allocated inside " + FN[kv.first] +
-                      " are still allocated after SoPlex_free (the wrapped C++ calls on the mirror left " + std::to_string(mirrorBlocks) + " block(s))";
-      if(!leaks) sink().count("leak.survivors_reachable");
-      else if(kv.second.first > mirrorBlocks) viol(c, (Fn)kv.first, "leak", d + " and LeakSanitizer reports unreachable memory");
-      else sink().count(std::string("leak.in_wrapped_cpp_call.") + FN[kv.first]);      // the C++ library's own leak: not the wrapper's
+      bool ok;
+      std::string txt = slurp(rpt, ok);
+      if(verbose) fprintf(stderr, "%s\n", txt.c_str());
+      std::istringstream in(txt);
+      std::string line, kind;
+      bool open = false;
+      std::map<std::string, std::string> wrapperLeaks;     // function -> first description
+      while(std::getline(in, line))
+      {
+         if(line.find("leak of ") != std::string::npos && line.find("allocated from:") != std::string::npos)
+         {
+            kind = line.find("Direct") != std::string::npos ? "direct" : "indirect";
+            open = true;
+            continue;
+         }
+         if(!open || line.find("    #") == std::string::npos) continue;
+         bool sx = line.find("/src/soplex") != std::string::npos;
+         if(!sx) continue;
+         open = false;      // first SoPlex frame of this leak decides
+         size_t p = line.find(" in ");
+         std::string fn = p == std::string::npos ? "?" : line.substr(p + 4);
+         fn = fn.substr(0, fn.find_first_of(" ("));
+         if(line.find("soplex_interface.cpp") != std::string::npos && fn.rfind("SoPlex_", 0) == 0)
+         {
+            if(kind == "direct" && !wrapperLeaks.count(fn)) wrapperLeaks[fn] = line.substr(line.find(" in ") + 4);
+         }
+         else
+         {
+            sink().count("leak.in_cpp_library." + kind);
+            size_t q = line.rfind('/');
+            std::string site = q == std::string::npos ? fn : line.substr(q + 1);      // file:line of the first SoPlex frame
+            sink().seen("leak_sites_in_cpp_library", fnv(site));
+            static std::set<std::string> noted;
+            if(c.k < 48 && kind == "direct" && noted.insert(site).second && noted.size() <= 3)
+               sink().note("leak-in-cpp-library", "LeakSanitizer: direct leak allocated at " + site + " (happens equally in the wrapped C++ call; not judged by C20)");
+         }
+      }
+      for(auto& kv : wrapperLeaks)
+      {
+         int f = -1;
+         for(int i = 0; i < F_COUNT; i++) if(kv.first == FN[i]) f = i;
+         if(f >= 0) viol(c, (Fn)f, "leak", "LeakSanitizer: memory allocated directly in the wrapper is never released: " + kv.second);
+         else viol(c, kv.first, "leak", "LeakSanitizer: memory allocated directly in the wrapper is never released: " + kv.second);
+      }
    }
+   else sink().count("leak.survivors_reachable");
+   unlink(rpt.c_str());
    for(size_t i = 0; i < LT_SIZE; i++) if(g_lt[i].key > 1) __lsan_ignore_object((const void*)(g_lt[i].key ^ LT_MASK));
 #else
    (void)c;
@@ -2222,7 +2352,7 @@ static void runCase(long long k, Rng& g)
    }
    else
    {
-      static const std::vector<std::string> modes = {"real", "real", "auto", "auto", "rational", "rational", "manual", "real"};
+      static const std::vector<std::string> modes = {"real", "real", "auto", "auto", "rational", "rational", "auto", "real"};
       std::string mode = modes[(size_t)((k / 16 + k) % (long long)modes.size())];
       if(sel == 5 || sel == 11)
       {
